@@ -552,6 +552,14 @@ func monitorArcs(line string, rect image.Rectangle, cs []Call) (fails []Failure)
 		if viewErr > 1e-3*math.Min(Rx, Ry) {
 			illCond = true
 		}
+		// … and both END POINTS reach the routine at that resolution (the pen comes back from float32 pixel space): an
+		// error e in an end point turns a chord of length L by e/L, and with it the centre about the chord's midpoint — a
+		// relative shape error of e/L.  A chord that is not at least a thousand times the resolution does not determine
+		// the ellipse to the tolerance used below (thorough tier, seed 5: a chord of 0.09 units in a viewBox 22 000 units
+		// from its origin, resolution 0.005; model and implementation agree bit for bit)
+		if viewErr > 1e-3*math.Hypot(x2-x1, y2-y1) {
+			illCond = true
+		}
 		onEllipse := func(x, y float64) float64 {
 			vx, vy := unT(x, y)
 			ux, uy := cphi*(vx-cx)+sphi*(vy-cy), -sphi*(vx-cx)+cphi*(vy-cy)
